@@ -56,9 +56,13 @@ func (c *checkSchema) checkType(name string, typ schema.Type, ss map[string]sche
 
 		// Return an error with the full set of bytes of the root schema.
 		if documentError, ok := r.(errors.DocumentError); ok {
-			// The nodes of a type, named or not, carry positions in the type's
-			// root file already, so the position must not be shifted again.
-			documentError.SetFile(typ.RootFile())
+			// The nodes of a type, named or not, carry positions in the file
+			// they were read from, which for a property inherited through
+			// "allOf" is the file of another type: the error keeps its file
+			// and its position.
+			if documentError.Filename() == "" {
+				documentError.SetFile(typ.RootFile())
+			}
 			documentError.SetIncorrectUserType(name)
 			panic(documentError)
 		}
